@@ -603,7 +603,7 @@ func (m *Machine) reflectValueStub(name string, fn *ssa.Function, args []Val) (V
 		return m.rvOf(st.mo.typ.Key(), st.mo.entries[st.i].k), true
 	case "(*reflect.MapIter).Value":
 		st := m.mapIters[args[0].(Ptr).obj]
-		return m.rvOf(st.mo.typ.Elem(), st.mo.entries[st.i].v), true
+		return m.rvOf(st.mo.typ.Elem(), m.Load(Ptr{st.mo.entries[st.i].vobj, 0}, st.mo.typ.Elem())), true
 	}
 	return nil, false
 }
